@@ -190,5 +190,7 @@ def finish(rep: Reporter, error: Optional[str] = None, write: bool = True, quiet
     if not quiet:
         ob = sum(r["instances"] for r in rep.rules.values())
         print(f"OK property={rep.pid} tier={rep.tier} rules={len(rep.rules)} obligations={ob} "
-              f"functions={len(rep.functions)} paths={rep.paths} known_findings={len(known)} wall={ev['wall_s']}s")
+              f"functions={len(rep.functions)} paths={rep.paths} known_findings={len(known)} wall={ev['wall_s']}s"
+              + (" selftest fired={fired}/{must_fire} silent={silent}/{must_silent} skipped={skipped}".format(**rep.extra["selftest"])
+                 if "selftest" in rep.extra else ""))
     return 0
